@@ -83,6 +83,7 @@ FIRE: List[Tuple[str, str, str, List[Tuple[str, str, str]]]] = [
     ("builtins-table-filled-at-render", "C18", "Y7", [(MD, "        self.builtins_types = {\n            pythonize_field_name(f.name) for f in getattr(self.proto_obj, \"field\", [])\n        } & set(dir(builtins))\n", ""), (MD, "        return f\"{name}{annotations} = {betterproto_field_type}\"", "        if self.py_name in dir(builtins):\n            self.parent.builtins_types.add(self.py_name)\n        return f\"{name}{annotations} = {betterproto_field_type}\"")]),
     ("map-annotation-ignores-shadowing", "C03", "Y7", [(MD, "            f\"builtins.{py_type}\" if py_type in shadowed else py_type\n", "            py_type\n")]),
     ("pydantic-enum-nonnegative", "C18", "Y8", [("src/betterproto/templates/template.py.j2", "        return core_schema.int_schema()", "        return core_schema.int_schema(ge=0)")]),
+    ("comment-backslash-not-escaped", "C03", "P11", [(MD, "                line.replace(\"\\\\\", \"\\\\\\\\\").replace('\"\"\"', '\\\\\"\\\\\"\\\\\"') for line in lines", "                line.replace('\"\"\"', '\\\\\"\\\\\"\\\\\"') for line in lines")]),
     ("mismatch-check-dropped", "C17", "M4", [(I, "            if not _wire_type_matches(parsed.wire_type, meta.proto_type, repeated):", "            if False:")]),
     ("packed-into-singular", "C17", "M4", [(I, "            repeated = proto_meta.default_gen[field_name] is list\n", "            repeated = True\n")]),
     ("empty-map-entry-dropped", "C01", "T4", [(I, "                            sk + sv,\n                            # An entry with default key and value is still an entry.\n                            serialize_empty=True,", "                            sk + sv,")]),
